@@ -1399,6 +1399,7 @@ func (in *Interp) selectOp(fr *frame, x *ssa.Select) Value {
 		k := 0
 		if n > 1 {
 			v := in.drawInput("select", "choice", 64)
+			in.res.NoNative = true
 			in.assume(c.Ult(v, c.BV(uint64(n), 64)))
 			k = in.Concretize(v, n-1, "select choice")
 		}
